@@ -34,6 +34,10 @@ package random
 //@   uses cntS(itseqof(rqueue), 0, 0)
 //@   uses cntMono(itseqof(rqueue), 0, 0, 0)
 //@   uses hkeyInj(0, 0)
+//@   invariant @IterateRandomRequestQueue #1 frame:  rqueue == old(rqueue)
+//@   invariant @IterateRandomRequestQueue #1 count:  forall h:Int :: ite(has(pendingRequests, keeper.HKEY(h)), len(get(pendingRequests, keeper.HKEY(h)).Requests), 0) == keeper.CNT(it_seq, it_idx, h)
+//@   invariant @IterateRandomRequestQueue #1 listed: forall j:Int :: 0 <= j && j < it_idx ==> has(pendingRequests, keeper.HKEY(it_seq[j].k0))
+//@                           && get(pendingRequests, keeper.HKEY(it_seq[j].k0)).Requests[keeper.CNT(it_seq, j, it_seq[j].k0)] == get(rqueue, it_seq[j].k0, it_seq[j].k1)
 //@   ensures complete: forall h:Int :: forall i:Bytes :: has(rqueue, h, i) ==> has(gs.PendingRandomRequests, keeper.HKEY(h))
 //@                        && 0 <= keeper.CNT(it_seq, itpos(h, i), h) && keeper.CNT(it_seq, itpos(h, i), h) < len(get(gs.PendingRandomRequests, keeper.HKEY(h)).Requests)
 //@                        && get(gs.PendingRandomRequests, keeper.HKEY(h)).Requests[keeper.CNT(it_seq, itpos(h, i), h)] == get(rqueue, h, i)
@@ -59,4 +63,20 @@ package random
 //@   invariant #2 part: forall j:Int :: 0 <= j && j <= rangeindex ==> has(rqueue, HOF(mr_seq[mr_idx - 1]), keeper.REQIDQ(rangeover[j]))
 //@   ensures all_queued: forall hk:Str :: forall j:Int :: has(PR, hk) && 0 <= j && j < len(get(PR, hk).Requests)
 //@                         ==> has(rqueue, HOF(hk), keeper.REQIDQ(get(PR, hk).Requests[j]))
+//@ end
+
+// Zero-height preparation (C12, C13, C18): every pending request is moved to the height it is due at on the restarted
+// chain (its distance to the current height is kept) - whatever the current height, 1 included, where the new key is
+// the old one - and none is lost. (A request id is queued at one height only: ids are made of requester and request
+// height, and one request is made per requester and block.)
+//@ func PrepForZeroHeightGenesis(ctx, k)
+//@   property C12, C13, C18
+//@   requires height >= 1
+//@   requires forall a:Int :: forall b:Int :: forall i:Bytes :: has(rqueue, a, i) && has(rqueue, b, i) ==> a == b
+//@   modifies rqueue
+//@   invariant @IterateRandomRequestQueue #1 moved: forall j:Int :: 0 <= j && j < it_idx ==> has(rqueue, it_seq[j].k0 - height + 1, it_seq[j].k1)
+//@                           && get(rqueue, it_seq[j].k0 - height + 1, it_seq[j].k1) == old(get(rqueue, it_seq[j].k0, it_seq[j].k1))
+//@   invariant @IterateRandomRequestQueue #1 todo:  forall j:Int :: it_idx <= j && j < it_n ==> has(rqueue, it_seq[j].k0, it_seq[j].k1)
+//@                           && get(rqueue, it_seq[j].k0, it_seq[j].k1) == old(get(rqueue, it_seq[j].k0, it_seq[j].k1))
+//@   ensures none_lost: forall h:Int :: forall i:Bytes :: old(has(rqueue, h, i)) ==> has(rqueue, h - height + 1, i) && get(rqueue, h - height + 1, i) == old(get(rqueue, h, i))
 //@ end
